@@ -133,6 +133,12 @@ func checkC15(r *core.Run) {
 	c15PrintParse(r, shapes, cases)
 	c15Suspended(r, prog, sb)
 	c15Handlers(r, prog, sb, shapes)
+	// (d) the compiled tables are indexed in their own index spaces (injectable / reportable /
+	// showable / event-data position vs. external input index)
+	e := newIKEngine(r, prog, "C15")
+	e.run([]string{"pkg/bondmachine", "cmd/bondmachine"}, func(pk *packages.Package, fd *ast.FuncDecl) bool {
+		return e.mentionsFieldOf(pk, fd, "pkg/bondmachine.SimDrive.", "pkg/bondmachine.SimReport.")
+	})
 }
 
 // ---- (a) extraction of Add ----------------------------------------------------------
